@@ -126,6 +126,9 @@ def run(ch, params, decoded=False):
         violations.append({"class": cls, "fingerprint": fp, "detail": detail})
 
     exp = ref.run_model(prog)
+    _skip = R.skipped_if_too_big(exp)
+    if _skip is not None:
+        return _skip
     model = exp["model"]
     classes = emit.build_classes(prog)
     budget = params["budget_mult"] * max(1, model.node_renders) + 300_000
